@@ -570,4 +570,104 @@ theorem lts_step {a' : A} {new : List (HEv ℚ)} (hi : AInv flow F cfg a q.time)
     simp only [MQ.step, hph, htk']
     simp only [toM, ctlOf, phaseOf, h]
 
+/-! ## the clock -/
+
+/-- the LTS accepts the clock advance to the next entry -/
+theorem lts_tick (hi : AInv flow F cfg a now) (hq : IsMin a q) (h : now < q.time) :
+    MQ.step (SP.sched cfg) (toM flow size a now) (.tick q.time) = .ok (toM flow size a q.time, .nothing) := by
+  have hne : ∀ x ∈ a.entries, x.time ≠ now := fun x hx hxt => absurd (hi.time_eq hq hx hxt) (ne_of_gt h)
+  have hp := hi.run
+  have hnlt : ¬ q.time < now := not_lt.mpr (le_of_lt h)
+  cases hr : a.run with
+  | init q0 => rw [hr] at hp; exact absurd hp.1 (hne q0 (mem_run (by simp [hr, RPhase.entries])))
+  | K g q0 => rw [hr] at hp; exact absurd hp.1 (hne q0 (mem_run (by simp [hr, RPhase.entries])))
+  | H g i id q0 => rw [hr] at hp; exact absurd hp.1 (hne q0 (mem_run (by simp [hr, RPhase.entries])))
+  | S p id q0 => rw [hr] at hp; exact absurd hp.1 (hne q0 (mem_run (by simp [hr, RPhase.entries])))
+  | F p id q0 => rw [hr] at hp; exact absurd hp.1 (hne q0 (mem_run (by simp [hr, RPhase.entries])))
+  | T p t id q0 =>
+    have h2 : ¬ q0.time < q.time := not_lt.mpr (not_keyLt_time (hq.2 q0 (mem_run (by simp [hr, RPhase.entries]))))
+    simp [MQ.step, doTick, toM, phaseOf, ctlOf, hr, hnlt, h2]
+  | W g =>
+    rw [hr] at hp
+    have htk : a.tokens = 0 := by
+      by_contra hc
+      obtain ⟨u, hu⟩ := hp.2.1 hc
+      exact hne u (mem_pend hu) (hi.pend _ hu).1
+    simp [MQ.step, doTick, toM, phaseOf, ctlOf, hr, hnlt, htk]
+
+/-- zero or one `tick` brings the LTS to the instant of the next entry -/
+theorem lts_advance (hi : AInv flow F cfg a now) (hq : IsMin a q) :
+    ∃ acts, runActs (SP.sched cfg) (toM flow size a now) acts = .ok (toM flow size a q.time, [], []) := by
+  rcases eq_or_lt_of_le (hi.now_le hq) with h | h
+  · exact ⟨[], by rw [← h]; rfl⟩
+  · refine ⟨[.tick q.time], ?_⟩
+    simp only [runActs, lts_tick hi hq h]
+    rfl
+
+/-! ## what the LTS side needs of a configuration besides `AInv`: the dict keys and `packets_received` -/
+
+/-- the ids handed to `put` so far -/
+def putIds : List (HEv ℚ) → List Int
+  | [] => []
+  | .put id _ :: r => id :: putIds r
+  | _ :: r => putIds r
+
+theorem putIds_append (l1 l2 : List (HEv ℚ)) : putIds (l1 ++ l2) = putIds l1 ++ putIds l2 := by
+  induction l1 with
+  | nil => rfl
+  | cons x r ih => cases x <;> simp [putIds, ih]
+
+theorem putPk_append (l1 l2 : List (HEv ℚ)) : putPk flow size (l1 ++ l2) = putPk flow size l1 ++ putPk flow size l2 := by
+  induction l1 with
+  | nil => rfl
+  | cons x r ih => cases x <;> simp [putPk, ih]
+
+theorem outPk_append (l1 l2 : List (HEv ℚ)) : outPk flow size (l1 ++ l2) = outPk flow size l1 ++ outPk flow size l2 := by
+  induction l1 with
+  | nil => rfl
+  | cons x r ih => cases x <;> simp [outPk, ih]
+
+structure LInv (flow : Int → Nat) (a : A) (hist : List (HEv ℚ)) : Prop where
+  keys : a.keys = keysOf flow (putIds hist)
+  recv : a.recv = ((putIds hist).length : Nat)
+
+theorem keysOf_append (ids : List Int) (id : Int) : keysOf flow (ids ++ [id]) = addKey (keysOf flow ids) (flow id) := by
+  simp [keysOf, List.foldl_append]
+
+theorem addKey_nodup (l : List Nat) (k : Nat) (h : l.Nodup) : (addKey l k).Nodup := by
+  by_cases hk : k ∈ l
+  · rw [addKey_of_mem _ _ hk]; exact h
+  · rw [addKey_of_not_mem _ _ hk]
+    exact List.nodup_append.mpr ⟨h, by simp, by
+      intro x hx y hy hxy
+      simp only [List.mem_singleton] at hy
+      exact hk (hy ▸ hxy ▸ hx)⟩
+
+theorem keysOf_nodup (ids : List Int) : (keysOf flow ids).Nodup := by
+  have : ∀ (ids : List Int) (acc : List Nat), acc.Nodup → (ids.foldl (fun l id => addKey l (flow id)) acc).Nodup := by
+    intro ids
+    induction ids with
+    | nil => intro acc h; exact h
+    | cons x r ih => intro acc h; exact ih _ (addKey_nodup _ _ h)
+  exact this ids [] List.nodup_nil
+
+theorem LInv.nodup {hist : List (HEv ℚ)} (h : LInv flow a hist) : a.keys.Nodup := by
+  rw [h.keys]; exact keysOf_nodup _
+
+theorem LInv.recv_nonneg {hist : List (HEv ℚ)} (h : LInv flow a hist) : 0 ≤ a.recv := by
+  rw [h.recv]; exact Int.natCast_nonneg _
+
+theorem linv_step {a' : A} {hist new : List (HEv ℚ)} (h : LInv flow a hist) (hs : AStep F flow size cfg n e a q a' new) :
+    LInv flow a' (hist ++ new) := by
+  cases hs <;> first
+    | exact ⟨by simpa [putIds_append, putIds] using h.keys, by simpa [putIds_append, putIds] using h.recv⟩
+    | (refine ⟨?_, ?_⟩
+       · show addKey a.keys _ = _
+         rw [putIds_append, h.keys]
+         simp only [putIds]
+         rw [keysOf_append]
+       · show a.recv + 1 = _
+         rw [putIds_append, h.recv]
+         simp [putIds])
+
 end SPK
